@@ -157,19 +157,26 @@ func (s *System) Start(ctx context.Context, count int) ([]*bigmachine.Machine, e
 	if s.cfg.BootDelay > 0 {
 		time.Sleep(s.cfg.BootDelay)
 	}
+	// A failed start costs simulated time (as a failed boot does in reality);
+	// never sleep with the mutex held.
 	s.mu.Lock()
-	defer s.mu.Unlock()
+	fail := ""
 	if s.refuse {
 		s.fired["start-refused"]++
-		return nil, fmt.Errorf("simnet: machine start refused by plan")
-	}
-	if s.cfg.MaxMachines > 0 && s.started+count > s.cfg.MaxMachines {
+		fail = "simnet: machine start refused by plan"
+	} else if s.cfg.MaxMachines > 0 && s.started+count > s.cfg.MaxMachines {
 		count = s.cfg.MaxMachines - s.started
 		if count <= 0 {
 			s.fired["start-exhausted"]++
-			return nil, fmt.Errorf("simnet: no more machines available")
+			fail = "simnet: no more machines available"
 		}
 	}
+	if fail != "" {
+		s.mu.Unlock()
+		time.Sleep(30 * time.Second)
+		return nil, fmt.Errorf("%s", fail)
+	}
+	defer s.mu.Unlock()
 	out := make([]*bigmachine.Machine, count)
 	for i := range out {
 		mctx, cancel := context.WithCancel(context.Background())
@@ -352,7 +359,13 @@ func (s *System) point(pt, method, callee, key string) (occ int, fire []*Fault) 
 	}
 	s.mu.Unlock()
 	if !s.cfg.NoDelayMethods[method] {
-		if d := DelayFor(s.cfg.DelayProfile, s.cfg.DelaySeed, name, occ) + stall; d > 0 {
+		profile := s.cfg.DelayProfile
+		if isSupervisor(method) && profile != "none" {
+			// Keepalive traffic only gets sub-millisecond jitter: long delays
+			// there are a fault kind of their own (stall).
+			profile = "ns"
+		}
+		if d := DelayFor(profile, s.cfg.DelaySeed, name, occ) + stall; d > 0 {
 			time.Sleep(d)
 		}
 	}
